@@ -218,7 +218,8 @@ pub fn history(seed: u64, idx: u64) -> Case {
                     let look = PingFault::Lookalike(rng.below(5) as u8);
                     let code = PingFault::ErrorCode(rng.below(crate::server::ERROR_REPLIES.len() as u64) as u8);
                     let shape = PingFault::Shape(rng.below(3) as u8);
-                    let f = *rng.pick(&[PingFault::Stale, PingFault::Wrong, look, look, shape, shape, PingFault::Error, code, code, PingFault::Disconnect, PingFault::Silence]);
+                    let named = PingFault::Named(rng.below(2 * crate::server::NAMED_REPLIES.len() as u64) as u8);
+                    let f = *rng.pick(&[PingFault::Stale, PingFault::Wrong, look, look, shape, shape, named, named, named, PingFault::Error, code, code, PingFault::Disconnect, PingFault::Silence]);
                     if rng.chance(1, 5) {
                         st.lock().unwrap().kill = true;
                         for _ in 0..2000 {
@@ -259,5 +260,86 @@ pub fn history(seed: u64, idx: u64) -> Case {
         events: log.len() as u64 + counters.values().sum::<u64>(),
         counters,
         desc: Json::obj().with("engine", "c17").with("seed", seed).with("index", idx).with("config", config_desc).with("log", log.iter().map(|s| Json::from(s.as_str())).collect::<Vec<_>>()),
+    }
+}
+
+/// Recycles at full speed on a multi-thread runtime: the PING values seen by the server must still be
+/// pairwise different ("a value not used before on that pool"), and every get must succeed.
+/// Returns (recycles observed, violation).
+pub fn ping_race(seed: u64, idx: u64) -> Case {
+    let mut rng = Rng::derive(seed, 0xC17A, idx);
+    let workers = rng.range(2, 8) as usize;
+    let conns = rng.range(2, 12) as usize;
+    let tasks = rng.range(conns as u64, 2 * conns as u64) as usize;
+    let rounds = rng.range(200, 1500) as usize;
+    let config_desc = format!("ping race: worker_threads={} max_size={} tasks={} rounds={}", workers, conns, tasks, rounds);
+    let rt = tokio::runtime::Builder::new_multi_thread().worker_threads(workers).enable_all().build().expect("rt");
+    let mut viol: Vec<Violation> = Vec::new();
+    let mut counters: BTreeMap<String, u64> = BTreeMap::new();
+    let mut log = vec![config_desc.clone()];
+    rt.block_on(async {
+        let (server, port, acc) = start(0).await.expect("listener");
+        let cfg = Config::from_url(format!("redis://127.0.0.1:{}/", port));
+        let pool = cfg.builder().expect("builder").max_size(conns).runtime(Runtime::Tokio1).build().expect("build");
+        let mut hs = Vec::new();
+        for _ in 0..tasks {
+            let pool = pool.clone();
+            hs.push(tokio::spawn(async move {
+                let mut failed: Option<String> = None;
+                for _ in 0..rounds {
+                    match tokio::time::timeout(Duration::from_secs(20), pool.get()).await {
+                        Ok(Ok(c)) => drop(c),
+                        Ok(Err(e)) => {
+                            failed = Some(format!("{:?}", e));
+                            break;
+                        }
+                        Err(_) => {
+                            failed = Some("get did not return within 20 s".into());
+                            break;
+                        }
+                    }
+                    tokio::task::yield_now().await;
+                }
+                failed
+            }));
+        }
+        for h in hs {
+            match h.await {
+                Ok(None) => {}
+                Ok(Some(e)) => viol.push(Violation { prop: "C17", oracle: "get_failed", msg: format!("a get() against a healthy server failed: {}", e) }),
+                Err(_) => viol.push(Violation { prop: "C17", oracle: "harness", msg: "a task died".into() }),
+            }
+        }
+        // every PING value the server has seen, over all connections of this pool
+        let mut seen: HashMap<String, u64> = HashMap::new();
+        let mut total = 0u64;
+        for k in 0..server.n_conns() {
+            let st = server.conn(k);
+            for (_, v, _) in st.lock().unwrap().pings.iter() {
+                *seen.entry(v.clone()).or_insert(0) += 1;
+                total += 1;
+            }
+        }
+        let dup: Vec<(&String, &u64)> = seen.iter().filter(|(_, n)| **n > 1).take(3).collect();
+        if !dup.is_empty() {
+            let n_dup = seen.values().filter(|n| **n > 1).count();
+            viol.push(Violation { prop: "C17", oracle: "ping_value_reused", msg: format!("{} of {} recycle PING values were used more than once on this pool, e.g. {:?}", n_dup, total, dup) });
+        }
+        let _ = counters.insert("race_recycles".into(), total);
+        let _ = counters.insert("race_connections".into(), server.n_conns() as u64);
+        log.push(format!("{} recycles over {} connections, {} distinct values", total, server.n_conns(), seen.len()));
+        drop(pool);
+        acc.abort();
+    });
+    rt.shutdown_timeout(Duration::from_secs(2));
+    let mut h = Hasher::default();
+    h.str(&config_desc);
+    Case {
+        violations: viol,
+        hash: h.0,
+        nontrivial: true,
+        events: counters.get("race_recycles").copied().unwrap_or(0),
+        counters,
+        desc: Json::obj().with("engine", "c17_ping_race").with("seed", seed).with("index", idx).with("config", config_desc).with("log", log.iter().map(|s| Json::from(s.as_str())).collect::<Vec<_>>()),
     }
 }
